@@ -141,18 +141,19 @@ def compare(mode, how, pats, ex, fs, ref, res, want_counts=None):
             res.add_violation(ID, run.viol('decomposition-bytes', dict(inp, name=name), {'match': want}, {'match': a}))
             return
     # translate(): list lengths, and the language of the returned regexes
-    if want_counts is not None:
+    if True:
         try:
             pos, neg = mod.translate(pats, flags=fl, exclude=ex)
         except Exception as e:  # noqa: BLE001
             res.add_violation(ID, run.viol('translate-raises', inp, 'ok', {'exc': type(e).__name__}))
             return
-        np, nn = want_counts
-        if 'O' in fs and np:
-            nn += 1
-        if (len(pos), len(neg)) != (np, nn):
-            res.add_violation(ID, run.viol('translate-lengths', inp, {'pos': np, 'neg': nn}, {'pos': len(pos), 'neg': len(neg)}))
-            return
+        if want_counts is not None:
+            np, nn = want_counts
+            if 'O' in fs and np:
+                nn += 1
+            if (len(pos), len(neg)) != (np, nn):
+                res.add_violation(ID, run.viol('translate-lengths', inp, {'pos': np, 'neg': nn}, {'pos': len(pos), 'neg': len(neg)}))
+                return
         import re
         try:
             tr = _wcmatch.WcRegexp(tuple(re.compile(x) for x in pos), tuple(re.compile(x) for x in neg))
